@@ -32,7 +32,8 @@ PROPS = {
     "C06": dict(units=["spawn", "exec", "builder"], kani=["w_fork_ids", "w_os_to_cstring_b4"], level="proof",
                 natives=[("units/native/format_env.nt.rs", "9331 environment lists: all lists of 0..5 entries over the names {A,B,CC} and the values {empty, x}")]),
     "C07": dict(units=["spawn", "exec"], kani=["w_pipe", "w_fork_ids"], level="proof"),
-    "C15": dict(units=["exec", "splitpath"], kani=["b_split_path_b3"], level="proof"),
+    "C15": dict(units=["exec", "splitpath"], kani=["b_split_path_b3"], level="proof",
+                bounded_scenarios=[("c15_path_lookup", "198 lookups on a real file system: all 64 placements of {nothing, non-executable file, directory, executable} under 3 PATH directories x 3 PATH spellings (plain, with empty and duplicate entries), plus 6 slash / explicit-executable cases")]),
     "C17": dict(units=["spawn", "exec"], kani=[], level="proof"),
     "C20": dict(units=[], kani=[], level="other",
                 explanation="BOUNDED stand-in, not a proof: assemble_cmdline and append_quoted live in the cfg(windows) module and are extracted mechanically into a native program that round-trips argument vectors through an independent implementation of the Microsoft parsing rules.",
@@ -43,11 +44,13 @@ PROPS = {
     "C12": dict(units=["builder", "pstate"], kani=[], level="proof"),
     "C13": dict(units=["builder"], kani=[], level="proof"),
     "C14": dict(units=["builder"], kani=[], level="proof"),
-    "C16": dict(units=["builder"], kani=["r_exec_stdin_refuses", "r_exec_stdout_refuses", "r_exec_stderr_refuses", "r_exec_terminators_refuse_data", "w_exec_stdin_accepts"], level="proof"),
+    "C16": dict(units=["builder"], bounded_scenarios=[("c16_builder_model", "1631 command descriptions: every sequence of up to 3 of 9 builder edits (env/env_remove/env_clear/env_extend/arg), each also through a clone taken half-way, run through the real crate and /bin/sh against a plain model")],
+                kani=["r_exec_stdin_refuses", "r_exec_stdout_refuses", "r_exec_stderr_refuses", "r_exec_terminators_refuse_data", "w_exec_stdin_accepts"], level="proof"),
     "C08": dict(units=["spawn", "builder"], kani=["w_pipe", "w_set_inheritable"], level="proof"),
     "C09": dict(units=["pstate"], kani=["w_decode_exit_status", "w_waitpid"], level="proof"),
     "C10": dict(units=["pstate"], kani=["w_kill"], level="proof"),
-    "C11": dict(units=["pstate"], kani=[], level="proof"),
+    "C11": dict(units=["pstate"], kani=[], level="proof",
+                bounded_scenarios=[("c11_status_checks", "one run under strace: 40 waits of 900 us, 10 of 2.5 ms, one of 250 ms and 20 polls on a live child; wait4 and nanosleep system calls are counted")]),
 }
 
 # --------------------------------------------------------------------------------------------- replay scenarios
